@@ -59,6 +59,10 @@ def _run_chunk(args):
     """Each chunk runs in a FORKED CHILD of the (initialised, otherwise idle) pool worker: the process state at the start
     of a chunk is therefore always the pristine post-initialisation state, whatever ran before -- a violation that depends
     on process-wide state accumulated by earlier scenarios is reproducible by replaying its chunk prefix in a fresh process."""
+    return _in_forked_child(_run_chunk_body, args)
+
+
+def _in_forked_child(fn, args):
     import pickle
 
     rfd, wfd = os.pipe()
@@ -67,7 +71,7 @@ def _run_chunk(args):
         code = 0
         try:
             os.close(rfd)
-            out = _run_chunk_body(args)
+            out = fn(args)
             with os.fdopen(wfd, "wb") as f:
                 pickle.dump(out, f)
         except BaseException:
@@ -388,6 +392,10 @@ def cmd_check(pid, tier):
 
 
 def _digest_chunk(args):
+    return _in_forked_child(_digest_chunk_body, args)
+
+
+def _digest_chunk_body(args):
     pid, tier, verif_seed, i0, i1 = args
     mod = _W["mod"]
     out = []
@@ -405,7 +413,7 @@ def cmd_digests(pid, n, workers):
     ctx = mp.get_context("fork")
     out = []
     with cf.ProcessPoolExecutor(max_workers=workers, mp_context=ctx, initializer=_worker_init, initargs=(pid,)) as ex:
-        step = max(1, n // (workers * 4))
+        step = int(os.environ.get("VERIF_DIGEST_CHUNK") or getattr(load_prop(pid), "CHUNK", 8))  # same chunk boundaries as a check batch
         futs = [ex.submit(_digest_chunk, (pid, "quick", 0, i, min(n, i + step))) for i in range(0, n, step)]
         for f in futs:
             out.extend(f.result())
@@ -419,8 +427,8 @@ def cmd_selftest(pids, n):
     bad = 0
     for pid in pids:
         runs = []
-        for hs, w in (("0", 16), ("7", 3), ("0", 16)):
-            env = dict(os.environ, PYTHONHASHSEED=hs)
+        for hs, w, ck in (("0", 16, ""), ("7", 3, ""), ("0", 16, ""), ("0", 16, "1")):
+            env = dict(os.environ, PYTHONHASHSEED=hs, VERIF_DIGEST_CHUNK=ck)
             p = subprocess.run([sys.executable, "-X", "faulthandler", "-m", "sim.main", "--digests", pid, "--n", str(n), "--workers", str(w)],
                                cwd=core.VERIF_DIR, env=env, capture_output=True, text=True, timeout=3600)
             line = [ln for ln in p.stdout.splitlines() if ln.startswith("DIGESTS ")]
@@ -430,9 +438,12 @@ def cmd_selftest(pids, n):
                 break
             runs.append(json.loads(line[0][8:]))
         else:
-            diff = [i for i, (a_, b_, c_) in enumerate(zip(*runs)) if not (a_ == b_ == c_)]
+            diff = [i for i, (a_, b_, c_, d_) in enumerate(zip(*runs)) if not (a_ == b_ == c_)]
+            iso = [i for i, (a_, b_, c_, d_) in enumerate(zip(*runs)) if a_ != d_]
             print(f"[selftest] {pid}: {n} run seeds x 3 configurations (hashseed 0/16 workers, hashseed 7/3 workers, repeat): "
-                  f"{'all digests equal' if not diff else f'{len(diff)} DIVERGED, first at index {diff[0]}: ' + str([r[diff[0]] for r in runs])}")
+                  f"{'all digests equal' if not diff else f'{len(diff)} DIVERGED, first at index {diff[0]}: ' + str([r[diff[0]] for r in runs[:3]])}"
+                  f"; every scenario alone in a fresh fork vs. inside its chunk: "
+                  f"{'equal' if not iso else f'{len(iso)} differ (scenario depends on its chunk prefix), first at index {iso[0]}'}")
             bad += bool(diff)
     return 2 if bad else 0
 
